@@ -135,6 +135,12 @@ class Cron(addons.AddonMainTask, block.SBlock):
             nowt = nowdt.time()
             if index is None:
                 index = bisect.bisect_left(timetable, nowt) % tlen
+                # The schedule is indexed from 'nowdt'. An alarm time that passed between
+                # a block's own last recalculation and 'nowdt' would not be served before
+                # the next day, bring all blocks up to date (see add_block).
+                for blk in set().union(*self._alarms.values()):
+                    assert hasattr(blk, 'recalc')
+                    blk.recalc(nowdt)
             wakeup = timetable[index]
             self.log_debug("wakeup time: %s", wakeup)
 
